@@ -921,6 +921,10 @@ func emitSQLFacts(repo, out string) error {
 	var pragmas, schema, migrateTx [][]string
 	var appendSQL, saveSQL []string
 	appendExecs, saveExecs := 0, 0
+	appendDBCalls, saveDBCalls := 0, 0
+	appendResultVar, appendOffsetFromResult := "", false
+	dbMethods := map[string]bool{"ExecContext": true, "QueryContext": true, "QueryRowContext": true, "Exec": true, "Query": true, "QueryRow": true,
+		"Begin": true, "BeginTx": true, "Prepare": true, "PrepareContext": true, "Conn": true}
 	consts := map[string]string{}
 	for _, file := range []string{"stores/sqlite/schema.go", "stores/sqlite/store.go"} {
 		f, err := parser.ParseFile(fset, filepath.Join(repo, file), nil, 0)
@@ -976,7 +980,33 @@ func emitSQLFacts(repo, out string) error {
 							schema = append(schema, sqlTokens(v))
 						}
 					}
+				case *ast.AssignStmt:
+					// result, err := s.appendStmt.ExecContext(...)
+					if fn == "Append" && len(x.Rhs) == 1 && len(x.Lhs) >= 1 {
+						if c, ok := x.Rhs[0].(*ast.CallExpr); ok {
+							if sel, ok := c.Fun.(*ast.SelectorExpr); ok && sel.Sel.Name == "ExecContext" {
+								if inner, ok := sel.X.(*ast.SelectorExpr); ok && inner.Sel.Name == "appendStmt" {
+									if id, ok := x.Lhs[0].(*ast.Ident); ok {
+										appendResultVar = id.Name
+									}
+								}
+							}
+						}
+					}
 				case *ast.CallExpr:
+					if sel, ok := x.Fun.(*ast.SelectorExpr); ok && dbMethods[sel.Sel.Name] {
+						if fn == "Append" {
+							appendDBCalls++
+						}
+						if fn == "SaveOffset" {
+							saveDBCalls++
+						}
+					}
+					if sel, ok := x.Fun.(*ast.SelectorExpr); ok && sel.Sel.Name == "LastInsertId" && fn == "Append" {
+						if id, ok := sel.X.(*ast.Ident); ok && appendResultVar != "" && appendResultVar != "_" && id.Name == appendResultVar {
+							appendOffsetFromResult = true
+						}
+					}
 					if sel, ok := x.Fun.(*ast.SelectorExpr); ok && sel.Sel.Name == "ExecContext" {
 						if inner, ok := sel.X.(*ast.SelectorExpr); ok {
 							if fn == "Append" && inner.Sel.Name == "appendStmt" {
@@ -1011,6 +1041,8 @@ func emitSQLFacts(repo, out string) error {
 	sb.WriteString("def appendSql : List String := " + leanStrList(appendSQL) + "\n\n")
 	sb.WriteString("def saveOffsetSql : List String := " + leanStrList(saveSQL) + "\n\n")
 	sb.WriteString(fmt.Sprintf("/-- number of statement executions in `Append` / `SaveOffset` (each must be exactly one prepared statement) -/\ndef appendExecs : Nat := %d\ndef saveOffsetExecs : Nat := %d\n", appendExecs, saveExecs))
+	sb.WriteString(fmt.Sprintf("\n/-- all database round trips (Exec/Query/QueryRow/Begin/Prepare/Conn calls) in `Append` / `SaveOffset` -/\ndef appendDbCalls : Nat := %d\ndef saveOffsetDbCalls : Nat := %d\n", appendDBCalls, saveDBCalls))
+	sb.WriteString(fmt.Sprintf("\n/-- the offset `Append` acknowledges is `LastInsertId()` of the result of that very INSERT (same statement, same connection) -/\ndef appendOffsetFromInsertResult : Bool := %v\n", appendOffsetFromResult))
 	sb.WriteString("\nend Ebu.Generated.Sql\n")
 	return os.WriteFile(filepath.Join(out, "SqlFacts.lean"), []byte(sb.String()), 0o644)
 }
